@@ -331,17 +331,6 @@ def close_singular(case, cls0):
 KNOWN_ALIAS = 'R16:channel-argument-kept-by-reference'
 
 
-def results_of(obj, scheme, H2, xarg, yarg, nvq):
-    """every result of one round on the object: (name, array)"""
-    out = [('encode', obj.encode(xarg))]
-    out.append(('decode', obj.decode(yarg)))
-    if scheme != 'alamouti':
-        out.append(('precoder', type(obj)._calc_precoder(H2)))
-        out.append(('filter', type(obj)._calc_receive_filter(H2, nvq)))
-    out.append(('sinr', obj.calc_linear_SINRs(nvq)))
-    return out
-
-
 def o_reuse(case):
     """R16: results depend on the CONTENTS of the arguments at call time only"""
     mode = case['mode']
@@ -354,9 +343,25 @@ def o_reuse(case):
             return 'R16:%s:%s:exception' % (case.get('scheme', 'functions'), mode), 'raised %s: %s' % (type(ex).__name__, str(ex)[:150])
 
 
+def round_results(obj, scheme, H2arg, xarg, ymake, nvq):
+    """every result of one round on the object, in the order a caller would ask for them: (name, value); `ymake`
+    turns the encoded block into the received-data ARGUMENT (numpy only)"""
+    e = obj.encode(xarg)
+    out = [('encode', e), ('decode', obj.decode(ymake(np.asarray(e))))]
+    if scheme != 'alamouti':
+        out.append(('precoder', type(obj)._calc_precoder(H2arg)))
+        out.append(('filter', type(obj)._calc_receive_filter(H2arg, nvq)))
+    out.append(('sinr', obj.calc_linear_SINRs(nvq)))
+    return out
+
+
 def reuse_refill(case):
-    """(i) + (iii) + (iv): ONE array per role refilled in place before every call on ONE object, 2-4 rounds; a round
-    may hand over an equal-content copy instead; buffers are scribbled over after the last round"""
+    """(i) + (iii) + (iv): ONE array per role refilled in place before every call on ONE object, 2-4 rounds (the loop
+    of a Monte Carlo simulation: same noise variance, new channel realisation in the same array); a round may hand
+    over an equal-content copy instead; buffers are scribbled over after the last round.  Phase 1 drives the object
+    alone (no other library call in between: a memo keyed by the identity of an argument must not be refreshed by
+    the reference computation) and checks first principles with numpy only; phase 2 compares every recorded result
+    with a fresh object given copies of the same contents"""
     b = B()
     scheme = case['scheme']
     cls0 = 'R16:%s:refill:' % scheme
@@ -365,9 +370,10 @@ def reuse_refill(case):
     H0 = b.dec(rounds[0]['H'])
     x0 = b.dec(rounds[0]['x'])
     Hbuf, xbuf = np.empty(H0.shape, dtype=complex), np.empty(x0.shape, dtype=complex)
-    ybuf = None
+    ybox = [None]
     obj = None
     kept = []    # (round, name, live result, snapshot)
+    log = []     # per round: values handed over, received block, results (copies)
 
     def verify(after):
         for rk, nm, live, snap in kept:
@@ -389,61 +395,79 @@ def reuse_refill(case):
             obj = b.make(scheme, harg)
         else:
             obj.set_channel_matrix(harg)
-        if fam:
+        if fam and (k == 0 or nvk != rounds[k - 1].get('nv', 0.0)):
             obj.set_noise_var(nvk)
         xbuf[...] = xk
         r = verify('the data buffer was refilled')
         if r:
             return r
-        f = b.fresh_like(scheme, np.array(Hk), nvk)
-        ef = np.asarray(f.encode(np.array(xk)))
-        yk = H2k @ ef
-        if ybuf is None:
-            ybuf = np.empty(yk.shape, dtype=complex)
-        ybuf[...] = yk
-        nvq = 0.4 * b.amax(H2k) ** 2
-        H2buf = b.as2d(scheme, Hbuf)
-        got = results_of(obj, scheme, H2buf, xbuf, ybuf, nvq)
-        want = results_of(f, scheme, np.array(H2k), np.array(xk), np.array(yk), nvq)
+        nvq = rd.get('nvq_abs') or 0.4 * b.amax(H2k) ** 2
+        made = {}
+
+        def ymake(e, H2k=H2k, made=made):
+            made['y'] = H2k @ e
+            if ybox[0] is None:
+                ybox[0] = np.empty(made['y'].shape, dtype=complex)
+            ybox[0][...] = made['y']
+            return ybox[0]
+        got = round_results(obj, scheme, b.as2d(scheme, harg), xbuf, ymake, nvq)
+        yk, ybuf = made['y'], ybox[0]
         if not (np.array_equal(Hbuf, Hk) and np.array_equal(xbuf, xk) and np.array_equal(ybuf, yk)):
             return cls0 + 'buffer-modified', where + 'a call changed the contents of an argument buffer'
-        for (nm, u), (_, w) in zip(got, want):
-            u_, w_ = np.asarray(u), np.asarray(w)
-            if nm == 'sinr':
-                ok, why = rel_close(b.sinr_lin(scheme, u_), b.sinr_lin(scheme, w_), 1e-7)
-            else:
-                sc = b.xscale(c, xk) if nm == 'decode' else (max(1.0, c) * 4 * b.amax(w_) if nm == 'filter' else None)
-                ok, why = b.near(u_, w_, scale=sc)
-            if not ok:
-                return cls0 + nm, where + '%s differs from a fresh object given copies of the same contents: %s' % (nm, why)
+        for nm, u in got:
             if isinstance(u, np.ndarray):
                 for bn, buf in (('channel', Hbuf), ('transmit-data', xbuf), ('received-data', ybuf)):
                     if np.shares_memory(u, buf):
                         return cls0 + 'result-aliases-buffer:' + nm, where + '%s shares memory with the %s buffer' % (nm, bn)
-        # first principles for the contents of THIS round
-        d = np.asarray(got[1][1])
+        # first principles for the contents of THIS round (numpy only)
+        e, d = np.asarray(got[0][1]), np.asarray(got[1][1])
+        if e.ndim == 2 and e.shape[1]:
+            per_use, mean_sym = float((np.abs(e) ** 2).sum()) / e.shape[1], float((np.abs(xk) ** 2).mean())
+            if abs(per_use - mean_sym) > 1e-10 * mean_sym:
+                return cls0 + 'energy', where + 'energy per channel use %.12g, mean symbol energy %.12g' % (per_use, mean_sym)
         if scheme not in NV_DECODE or nvk == 0:
             ok, why = b.near(d, xk, 1e-10, scale=b.xscale(c, xk))
             if not ok:
                 return cls0 + 'roundtrip', where + 'noise-free round trip of the refilled buffers: ' + why
-        else:
-            Wp = precoder_of(obj, scheme, H2k)
-            G = b.used_filter(obj, nr) / math.sqrt(nt)
-            ok, why = defining_equation(G, H2k @ Wp, nvk, c)
-            if not ok:
-                return cls0 + 'decode-filter', where + 'the filter decode() applies is not the MMSE filter of the refilled channel: ' + why
         r = verify('round %d' % k)
         if r:
             return r
         for nm, u in got:
             if isinstance(u, np.ndarray) and u.ndim:
                 kept.append((k, nm, u, np.array(u, copy=True)))
+        log.append((Hk, xk, nvk, nvq, yk, [(nm, np.array(u, copy=True)) for nm, u in got]))
     # (iii) the data buffers are modified right after the last call: no result may follow
     xbuf[...] = 0
-    ybuf[...] = 0
+    ybox[0][...] = 0
     r = verify('the data buffers were overwritten')
     if r:
         return r
+    # the filter decode() applies in the FINAL configuration (asked last: it is one more decode on the object)
+    Hk, xk, nvk = log[-1][0], log[-1][1], log[-1][2]
+    H2k = b.as2d(scheme, Hk)
+    if scheme in NV_DECODE:
+        nr, nt = H2k.shape
+        Wp = np.asarray(log[-1][5][2][1], dtype=complex) * math.sqrt(nt)
+        G = b.used_filter(obj, nr) / math.sqrt(nt)
+        ok, why = defining_equation(G, H2k @ Wp, nvk, b.cond2(H2k))
+        if not ok:
+            return cls0 + 'decode-filter', 'last round: the filter decode() applies is not the %s filter of the refilled channel: %s' % (
+                'MMSE' if nvk > 0 else 'ZF', why)
+    # phase 2: every recorded result against a fresh object given copies of the same contents
+    for k, (Hk, xk, nvk, nvq, yk, got) in enumerate(log):
+        H2k = b.as2d(scheme, Hk)
+        c = b.cond2(H2k)
+        f = b.fresh_like(scheme, np.array(Hk), nvk)
+        want = round_results(f, scheme, np.array(H2k), np.array(xk), lambda e, yk=yk: np.array(yk), nvq)
+        for (nm, u_), (_, w) in zip(got, want):
+            w_ = np.asarray(w)
+            if nm == 'sinr':
+                ok, why = rel_close(b.sinr_lin(scheme, u_), b.sinr_lin(scheme, w_), 1e-7)
+            else:
+                sc = b.xscale(c, xk) if nm == 'decode' else (max(1.0, c) * 4 * b.amax(w_) if nm == 'filter' else None)
+                ok, why = b.near(u_, w_, scale=sc)
+            if not ok:
+                return cls0 + nm, 'round %d: %s differs from a fresh object given copies of the same contents: %s' % (k, nm, why)
     return None
 
 
@@ -701,21 +725,31 @@ def close_history(g, rng, scheme, family, max_n):
     return {'scheme': scheme, 'H0': b.enc(H0), 'ops': ops, 'kw': rng.chance(0.3)}
 
 
-def refill_case(g, rng, scheme, max_n, n_rounds=None, shape=None):
+def refill_case(g, rng, scheme, max_n, n_rounds=None, shape=None, nv_mode=None):
+    """rounds of one Monte Carlo style loop; nv_mode 'constant': one noise variance set once (the usual loop),
+    'zero': zero forcing throughout, 'varying': a new noise variance every round"""
     b = B()
     nr, nt = shape or r_shape(rng, scheme, max_n)
     vec = rng.chance(0.5)
     L = rng.choice([1, 2, 3])
+    nv_mode = nv_mode or rng.choice(['constant', 'zero', 'varying'])
     rounds = []
+    nv_const = None
     for k in range(n_rounds or rng.randint(2, 4)):
-        H2 = g.channel(nr, nt)[0] if scheme != 'alamouti' else g.channel(max(nr, 2), 2)[0][:nr, :] + 0.1
+        H2 = g.channel(nr, nt, kind=rng.choice(['gauss', 'gint', 'cond', 'real']))[0] if scheme != 'alamouti' \
+            else g.channel(max(nr, 2), 2, kind='gauss')[0][:nr, :] + 0.1
         if k and rng.chance(0.2):       # the buffer is refilled with the contents it already had
             H2 = b.as2d(scheme, b.dec(rounds[-1]['H']))
         nv = 0.0
-        if scheme in FAM and rng.chance(0.6):
-            nv = 10.0 ** rng.uniform(-3, 0) * b.amax(H2) ** 2
+        if scheme in FAM and nv_mode != 'zero':
+            if nv_mode == 'varying' or nv_const is None:
+                nv_const = 10.0 ** rng.uniform(-3, 0) * b.amax(H2) ** 2
+            nv = nv_const
         rounds.append({'H': b.enc(chan_arg(scheme, np.array(H2, dtype=complex), vec)), 'x': b.enc(g.data(n_sym(scheme, nt, L))[0]),
                        'nv': nv, 'copy': bool(k and rng.chance(0.25))})
+    nvq = 0.4 * b.amax(b.dec(rounds[0]['H'])) ** 2      # one query noise variance for the whole loop
+    for rd in rounds:
+        rd['nvq_abs'] = nvq
     return {'scheme': scheme, 'mode': 'refill', 'rounds': rounds}
 
 
@@ -775,6 +809,30 @@ def reuse_history(g, rng, scheme, max_n):
     return h
 
 
+def mc_history(g, rng, scheme, max_n):
+    """the loop of a Monte Carlo simulation as a history: the noise variance is set once, then every iteration
+    refills the ONE channel array, hands it to set_channel_matrix and transmits a block"""
+    b = B()
+    nr, nt = r_shape(rng, scheme, max_n)
+    vec = rng.chance(0.5)
+
+    def chan():
+        H2 = g.channel(nr, nt, kind=rng.choice(['gauss', 'gint', 'real']))[0] if scheme != 'alamouti' \
+            else g.channel(max(nr, 2), 2, kind='gauss')[0][:nr, :] + 0.1
+        return chan_arg(scheme, np.array(H2, dtype=complex), vec)
+    H0 = chan()
+    ops = []
+    if scheme in FAM:
+        ops.append({'op': 'nv', 'v': 0.0 if rng.chance(0.3) else 10.0 ** rng.uniform(-3, 0) * b.amax(H0) ** 2})
+    n = n_sym(scheme, nt, rng.choice([1, 2]))
+    ops.append({'op': 'rt', 'x': b.enc(g.data(n)[0])})
+    for _ in range(rng.randint(2, 4)):
+        ops += [{'op': 'sc', 'H': b.enc(chan())}, {'op': 'rt', 'x': b.enc(g.data(n)[0])}]
+        if rng.chance(0.4):
+            ops.append({'op': 'flt', 'v': None if rng.chance(0.3) else 0.3 * b.amax(H0) ** 2})
+    return {'scheme': scheme, 'H0': b.enc(H0), 'ops': ops, 'kw': rng.chance(0.3), 'reuse': True}
+
+
 # ================================================================================================ driver
 def run(ctx, g, max_n):
     """R15 + R16 for every scheme: a small deterministic scenario set in quick, larger random ones in thorough"""
@@ -821,14 +879,16 @@ def run(ctx, g, max_n):
                 ctx.branch('R15:singular:' + family)
         # ------------------------------------------------------------------ R16
         for scheme in b.SCHEMES:
-            for _ in range(2 if quick else 4):
-                oracle('reuse', refill_case(g, rng, scheme, max_n), 'R16')
+            for mode in (('constant', 'zero', 'varying') if quick else ('constant', 'zero', 'varying', None, None)):
+                if mode in ('constant', 'varying') and scheme not in FAM:
+                    continue
+                oracle('reuse', refill_case(g, rng, scheme, max_n, nv_mode=mode), 'R16')
                 ctx.branch('R16:refill')
             oracle('reuse', after_call_case(g, rng, scheme, max_n), 'R16')
             ctx.branch('R16:after-call')
-            for _ in range(2 if quick else 4):
+            for which in (('mc', 'seeded') if quick else ('mc', 'seeded', 'mc', 'seeded', 'seeded')):
                 idx += 1
-                hist = reuse_history(g, rng, scheme, max_n)
+                hist = mc_history(g, rng, scheme, max_n) if which == 'mc' else reuse_history(g, rng, scheme, max_n)
                 b.corr_history(ctx, batch, hist, ('R16c', idx))
                 b.run_oracle(ctx, 'history', hist, key=('R16h', idx))
         for _ in range(2 if quick else 6):
